@@ -163,6 +163,94 @@ def width_case(cx, r, signed, threshold, rng, raw=False):
     return None
 
 
+def memvec_case(cx, rng):
+    """memory reads, pointers and alternatives (vec): widths along simplify / eval / slicing / extension.
+    Returns (description, [(symptom, detail)])"""
+    E = cx.E
+    psz = rng.choice([16, 32, 64])
+    w = rng.choice([8, 16, 32, 64, 128, 24])
+    a, b, c = (E.reg("p%d_%d" % (psz, j), psz) for j in range(3))
+    cond = E.reg("cnd", 1)
+    kind = rng.choice(["reg", "reg+cst", "vec2", "vec3", "tst", "sum", "vec-of-sums"])
+    base = {"reg": lambda: a, "reg+cst": lambda: a + rng.choice([1, 4, 0x100]), "vec2": lambda: E.vec([a, b]),
+            "vec3": lambda: E.vec([a, b + 4, c]), "tst": lambda: E.tst(cond, a, b), "sum": lambda: a + b,
+            "vec-of-sums": lambda: E.vec([a + 8, b - 8])}[kind]()
+    disp = rng.choice([0, 0, 4, -8, rng.randrange(-300, 300)])
+    endian = rng.choice([1, 1, -1])
+    desc = {"pointer": kind, "pointer_size": psz, "width": w, "disp": disp, "endian": endian}
+
+    def M():
+        return E.mem(base, w, disp=disp, endian=endian)
+    k = E.cst(rng.getrandbits(w), w)
+    lo = rng.randrange(0, w - 1)
+    hi = rng.randrange(lo + 1, w + 1)
+    shapes = [("mem", M, w), ("mem+cst", lambda: M() + k, w), ("mem-slice", lambda: M()[lo:hi], hi - lo),
+              ("mem-zx", lambda: M().zeroextend(w + 8), w + 8), ("mem-sx", lambda: M().signextend(w + 5), w + 5),
+              ("tst-mem", lambda: E.tst(cond, M(), k), w), ("mem==cst", lambda: M() == k, 1), ("vec-mem", lambda: E.vec([M(), k]), w),
+              ("comp-mem", lambda: E.composer([M(), E.cst(3, 8)]), w + 8), ("neg-mem", lambda: -M(), w),
+              ("mem-of-mem", lambda: E.mem(E.mem(base, psz, disp=disp), w), w)]
+    envs = []
+    m1 = cx.mapper()
+    for g in (a, b, c):
+        m1[g] = E.cst(0x1000 + rng.getrandbits(8), psz)
+    m1[cond] = E.cst(rng.getrandbits(1), 1)
+    envs.append(("eval-concrete", m1))
+    m2 = cx.mapper()
+    m2[a] = E.vec([b, c + 4])
+    envs.append(("eval-vec-pointer", m2))
+    m3 = cx.mapper()
+    m3[a] = b + c
+    m3[E.mem(b, w)] = E.cst(1, w)
+    envs.append(("eval-symbolic", m3))
+    try:
+        from amoco.cas.mapper import merge
+        ma, mb = cx.mapper(), cx.mapper()
+        ma[a] = b
+        mb[a] = c + 16
+        envs.append(("eval-merged", merge(ma, mb)))
+    except Exception:
+        pass
+    bad = []
+    for sname, f, want in shapes:
+        stages = [("build", f), ("simplify", lambda: f().simplify()), ("simplify-bitslice", lambda: f().simplify(bitslice=True)),
+                  ("simplify-widening", lambda: f().simplify(widening=True))]
+        for ename, m in envs:
+            stages.append((ename, lambda m=m: m(f())))
+            stages.append((ename + "+simplify", lambda m=m: m(f()).simplify()))
+        for name, g in stages:
+            try:
+                res = g()
+            except (MemoryError, RecursionError):
+                raise
+            except Exception:
+                continue
+            if res.size != want:
+                bad.append(("width|memvec|%s|%s" % (sname, name.split("+")[0]), "%s of %s (%s) has width %d, construction dictates %d: %s" % (name, sname, f(), res.size, want, res)))
+                break
+            try:
+                er = X.tiling_error(X.dump(res))
+            except Exception:
+                er = None
+            if er:
+                bad.append(("tiling|memvec|%s|%s" % (sname, name.split("+")[0]), "%s of %s: %s in %s" % (name, sname, er, res)))
+                break
+    return desc, bad
+
+
+def memvec_part(run, quick):
+    cx = c01.Ctx()
+    rng = random.Random(run.seed * 977 + 12)
+    for _ in range(250 if quick else 4000):
+        try:
+            desc, bad = memvec_case(cx, rng)
+        except (MemoryError, RecursionError):
+            continue
+        run.count(("memvec", json.dumps(desc, sort_keys=True)), nontrivial=desc["pointer"] != "reg")
+        run.hist("memvec_pointer_kinds", desc["pointer"])
+        for key, detail in bad[:2]:
+            run.violation(key, "width/tiling: %s" % detail[:200], dict(desc, detail=detail))
+
+
 class CaseTimeout(Exception):
     pass
 
@@ -211,7 +299,9 @@ def check(run):
     quick = run.tier == "quick"
     run.cov["rule"] = ("(a) random slice-assignment sequences (1..8 assignments, incl. composite right-hand sides) on comp objects of widths "
                        "1..128; (b) recipes as in C01, each taken through construction, simplify (plain / bitslice / widening) and eval under "
-                       "concrete, partial and symbolic environments, with the complexity threshold off or small; distinct by case; "
+                       "concrete, partial and symbolic environments, with the complexity threshold off or small; (c) memory reads of widths 8..128 "
+                       "through register / sum / conditional / alternative (vec) pointers, alone and inside slices, extensions, compositions, "
+                       "conditionals and alternatives, through simplify (all options) and eval under concrete, vec-valued, symbolic and merged maps; distinct by case; "
                        "non-trivial when >= 2 operators / assignments")
     import multiprocessing as mp
     tasks = [(run.seed * 2003 + i, 700 if quick else 12000) for i in range(14)]
@@ -227,6 +317,7 @@ def check(run):
         if o is not None and o[0] != "skip":
             run.violation(o[0], "corpus case %s: %s" % (f.split("/")[-1], o[1][:120]), c)
     comp_part(run, quick)
+    memvec_part(run, quick)
     for r in results:
         run.cov["evaluations"] += r["n"]
         run._distinct.update(("%d-%d" % (id(r), j)).encode() for j in range(r["distinct"]))
